@@ -60,7 +60,8 @@ Inductive api_call :=
 | AStartPull (s : N) (b : pull_body) (rtmp : bool)          (* POST /api/ctrl/start_relay_pull *)
 | AStopPull (s : option N)                                  (* GET /api/ctrl/stop_relay_pull?stream_name= *)
 | AKick (s : option N) (t : option ktarget)                 (* POST /api/ctrl/kick_session {stream_name, session_id} *)
-| AStartRtpPub (s : option N) (n : N) (port timeout tcp : jfield).   (* POST /api/ctrl/start_rtp_pub *)
+| AStartRtpPub (s : option N) (n : N) (port timeout tcp : jfield) (listen : bool).
+   (* listen: the port can be bound - the environment's part in the call, not a field of the body *)   (* POST /api/ctrl/start_rtp_pub *)
 
 (* the call the handler makes on the server manager; None: answered with "param missing" (1002) *)
 Definition api_event (c : api_call) : option event :=
@@ -74,12 +75,12 @@ Definition api_event (c : api_call) : option event :=
   | AStopPull None => None
   | AKick (Some s) (Some t) => Some (EKick s t)
   | AKick _ _ => None
-  | AStartRtpPub (Some s) n port timeout tcp =>
+  | AStartRtpPub (Some s) n port timeout tcp listen =>
     match rtp_request port timeout tcp with
-    | Some _ => Some (EPsPub s n)
+    | Some _ => Some (EPsPub s n listen)
     | None => None
     end
-  | AStartRtpPub None _ _ _ _ => None
+  | AStartRtpPub None _ _ _ _ _ => None
   end.
 
 Definition code_param_missing : N := 1002.
